@@ -43,6 +43,8 @@ type Query {
   accountVal: Account
   accountBot: Account
   firstN(n: Int): [Item]
+  stranger: Node
+  strangers: [Node]
 }
 
 type Account {
@@ -203,6 +205,17 @@ func (q *Query) Node() interface{} { return &Other{ID: "o2", Note: "n2"} }
 // Nodes mixes implementers.
 func (q *Query) Nodes() []interface{} {
 	return []interface{}{&Other{ID: "o3"}, q.Items[1]}
+}
+
+// Drifter is a Go type NO object type is bound to or can be bound to (no type of that name, no @go, never registered).
+type Drifter struct{ ID string }
+
+// Stranger hands a Drifter out where the interface Node is declared.
+func (q *Query) Stranger() interface{} { return &Drifter{ID: "d1"} }
+
+// Strangers mixes Drifters with real implementers.
+func (q *Query) Strangers() []interface{} {
+	return []interface{}{&Drifter{ID: "d2"}, q.Items[0], &Other{ID: "o4"}, &Drifter{ID: "d3"}}
 }
 
 // BoxIn is the Go type registered for the input type Box.
@@ -417,6 +430,9 @@ var Requests = []struct {
 	{`query($o: Opts = {text: "d"}) { search(opts: $o) }`, nil},
 	{`query($o: Opts) { search(opts: $o) }`, map[string]interface{}{"o": map[string]interface{}{"tags": []interface{}{"v"}}}},
 	{`{ countdown(n: 3) name }`, nil},
+	{`{ stranger { id } name }`, nil},
+	{`{ strangers { id } nodes { id } }`, nil},
+	{`{ strangers { __typename id ... on Other { note } } stranger { ... on Item { size } } }`, nil},
 	{`{ items { id ghost } count }`, nil},
 	{`{ name g: ghost items { g2: ghost } }`, nil},
 	{`query($b: Box){ box(in: $b) }`, map[string]interface{}{"b": map[string]interface{}{"d": []interface{}{float64(3)}}}},
